@@ -63,7 +63,21 @@ SubsetWhy(e) ==
   ELSE IF ~UnsatCl(N, e.res.clauses) THEN "subset-satisfiable"
   ELSE ""
 
-Why == CASE Ev.op = "mus"     -> MusWhy(Ev)
+(* local tier for the solvers the MUS methods create (hook events, build tag verif): every clause a  *)
+(* solver learns must follow by unit propagation from the clauses it was given, the clauses added     *)
+(* since, and the clauses it learned before - never from its current assumptions.  Diagnostic.        *)
+RECURSIVE LearnFold(_, _, _)
+LearnFold(wb, i, db) ==
+  IF i > Len(wb) THEN ""
+  ELSE LET e == wb[i] IN
+       IF e.k = "new" THEN LearnFold(wb, i + 1, {Range(e.clauses[j]) : j \in 1..Len(e.clauses)} \cup {{e.units[j]} : j \in 1..Len(e.units)})
+       ELSE IF e.k \in {"append", "block"} THEN LearnFold(wb, i + 1, db \cup {Range(e.lits)})
+       ELSE IF e.k = "learn"
+       THEN IF RUP(db, Range(e.lits)) THEN LearnFold(wb, i + 1, db \cup {Range(e.lits)}) ELSE "diag:learned-clause-not-rup"
+       ELSE LearnFold(wb, i + 1, db)
+First(a, b2) == IF a # "" THEN a ELSE b2
+
+Why == CASE Ev.op = "mus"     -> First(MusWhy(Ev), LearnFold(Ev.wb, 1, {}))
          [] Ev.op = "check"   -> CheckWhy(Ev)
          [] Ev.op = "subset"  -> SubsetWhy(Ev)
          [] Ev.op = "skip"    -> ""
